@@ -126,6 +126,7 @@ func init() {
 			c.rulesR3subs()
 			c.rulesR4scanall()
 			c.rulesR4qdone()
+			c.rulesR5settle()
 			c.rulesR3misc("C06")
 			c.rulesR3flush()
 			c.rulesR3whentime()
